@@ -304,6 +304,25 @@ func (fe *FE) Run() {
 		}
 		st.guarded[ref] = lock
 	}
+	for gi, gf := range fe.C.GuardFields {
+		i := strings.LastIndex(gf, ".")
+		t := fe.V.resolveType(gf[:i], fn.Pkg.Pkg)
+		if i < 0 || t == nil {
+			fe.errorf("guardfield %q: cannot resolve", gf)
+			continue
+		}
+		ctx.what = "guardfield"
+		lv := ctx.eval(fe.C.GuardFieldLocks[gi])
+		lock, ok := fe.asRef(lv)
+		if !ok {
+			fe.errorf("guardfield %q: lock is not a reference", gf)
+			continue
+		}
+		if st.guardedBases == nil {
+			st.guardedBases = map[string]string{}
+		}
+		st.guardedBases[fieldBase(t, gf[i+1:])] = lock
+	}
 	for _, lw := range fe.C.LoopWrites {
 		ctx.what = "loopwrites"
 		v := ctx.eval(lw)
@@ -498,6 +517,14 @@ func (fe *FE) havocLoop(st *State, li *loopInfo) {
 	for _, g := range sortedKeys(li.modGh) {
 		if old, ok := st.ghosts[g]; ok {
 			st.ghosts[g] = fe.freshLike(st, "gh_"+g, old)
+		}
+	}
+	// `visited` is an alias of the loop's own iterator's visited set
+	for _, g := range sortedKeys(li.modGh) {
+		if strings.HasPrefix(g, "$visited_") {
+			if v, ok := st.ghosts[g]; ok {
+				st.ghosts["visited"] = v
+			}
 		}
 	}
 	// allocation counter may have grown
@@ -891,6 +918,11 @@ func (fe *FE) execAlloc(st *State, x *ssa.Alloc) {
 			fe.store(st, loc, fe.zeroVal(et))
 		}
 		st.vals[x] = Val{Kind: VLoc, Loc: loc, GoT: x.Type()}
+	}
+	if isIdentName(x.Comment) {
+		if v := st.vals[x]; v.Kind == VLoc || v.Kind == VScalar {
+			st.names[x.Comment] = v
+		}
 	}
 }
 
@@ -1453,6 +1485,7 @@ func (fe *FE) localType(name string) types.Type {
 func (fe *FE) isAddrVar(obj types.Object) bool {
 	if fe.addrVars == nil {
 		fe.addrVars = map[types.Object]bool{}
+		fe.cellNames = map[string]bool{}
 		for _, b := range fe.Fn.Blocks {
 			for _, ins := range b.Instrs {
 				if d, ok := ins.(*ssa.DebugRef); ok && d.IsAddr {
@@ -1460,10 +1493,26 @@ func (fe *FE) isAddrVar(obj types.Object) bool {
 						fe.addrVars[d.Object()] = true
 					}
 				}
+				// `new T (name)`: the variable `name` escapes (captured by a closure / address taken)
+				if a, ok := ins.(*ssa.Alloc); ok && isIdentName(a.Comment) {
+					fe.cellNames[a.Comment] = true
+				}
 			}
 		}
 	}
-	return fe.addrVars[obj]
+	return fe.addrVars[obj] || fe.cellNames[obj.Name()]
+}
+
+func isIdentName(s string) bool {
+	if s == "" || s == "varargs" || s == "complit" || s == "slicelit" || s == "makeslice" || s == "new" {
+		return false
+	}
+	for _, c := range s {
+		if !(c == '_' || (c >= 'a' && c <= 'z') || (c >= 'A' && c <= 'Z') || (c >= '0' && c <= '9')) {
+			return false
+		}
+	}
+	return true
 }
 
 func isPkgLevel(v *types.Var) bool {
@@ -1493,6 +1542,13 @@ func (fe *FE) resolveOwnFrame(st *State) {
 		pc.own = false
 		preRef := fe.itemRef(pristine, pc, it)
 		names := fe.havocItem(scratch, cc, it, "own frame")
+		if strings.HasPrefix(it, "elemsof(") {
+			for _, n := range names {
+				fe.frameWhole[n] = true
+				fe.frameWhole[stripComp(n)] = true
+			}
+			continue
+		}
 		isLoc := strings.HasPrefix(it, "mapcontents(") || strings.HasPrefix(it, "elems(") || strings.HasPrefix(it, "cell(") || strings.HasPrefix(it, "gset(")
 		head := it
 		if i := strings.IndexAny(head, ".[("); i >= 0 {
